@@ -31,9 +31,9 @@ from .corpus import CORPUS
 
 PROP = "C14"
 FEATURE_SETS = ("full",)
-GRAMMARS = ["g1", "c1", "p1", "hd", "c2", "f1", "f2", "x1"]
+GRAMMARS = ["g1", "c1", "p1", "hd", "c2", "f1", "f2", "x1", "ka"]
 # values returned by the user completer of a grammar's argument: {grammar: (short name of the argument, values)}
-COMPLETER = {"x1": ("d", ["1", "2"])}
+COMPLETER = {"x1": ("d", ["1", "2"]), "ka": ("w", ["1", "2"])}
 TYPED = ["", "-", "--", "--a", "--al", "--be", "--n", "--zz", "-a", "-b", "-n", "a", "ad", "ax", "r", "m", "c", "zz", "--st", "--beta=", "-b="]
 
 
@@ -266,6 +266,8 @@ def run_job(job, build):
                 for f in C10.level_named(active):
                     if getattr(f, "hidden", False) or not f.longs:
                         continue
+                    if getattr(f, "in_adjacent", False):
+                        continue  # the completeness clause exempts members of adjacent groups
                     if id(f) in given:
                         continue
                     if preferred(f) == typed and text.strip() == typed:
